@@ -95,6 +95,10 @@ pub struct BScenario {
     pub allow_flips: bool,
     pub near_wrap: bool,
     pub active_timeout_ms: u64,
+    /// loss-free, order-preserving link (C05)
+    pub ideal: bool,
+    /// cap on the payload bytes per direction and connection (0 = none)
+    pub byte_cap: u64,
 }
 
 /// General World B traffic scenario: clients connect at t=0 (or a little later), both sides
@@ -134,11 +138,21 @@ pub fn world_b_general(property: &str, scenario: &str, seed: u64, run: u64, sc: 
     for p in 0..phases {
         let mut rule = if p > 0 && r.chance(0.2) { clean_rule(latency) } else { faulty_rule(&mut r, latency, sc.allow_flips) };
         rule.drop_p = rule.drop_p.min(0.2);
+        if sc.ideal {
+            rule = clean_rule(latency);
+            rule.fifo = true;
+            if r.chance(0.3) {
+                rule.jitter_us = r.below(latency + 1);
+            }
+        }
         plan.push(t, 2, Op::Link { from: None, to: None, rule });
         t += sc.fault_until_us / phases;
     }
     if sc.heal {
-        plan.push(sc.fault_until_us, 2, Op::Link { from: None, to: None, rule: clean_rule(latency.min(200_000)) });
+        let mut healed = clean_rule(latency.min(200_000));
+        // an ideal network stays order-preserving across the boundary
+        healed.fifo = sc.ideal;
+        plan.push(sc.fault_until_us, 2, Op::Link { from: None, to: None, rule: healed });
         plan.push(sc.fault_until_us, 3, Op::Mark { name: "heal".into() });
     }
     let send_until = sc.fault_until_us.min(sc.horizon_us);
@@ -183,6 +197,17 @@ pub fn world_b_general(property: &str, scenario: &str, seed: u64, run: u64, sc: 
     if sc.heal {
         let period = cad.period_us.clamp(1000, 100_000);
         plan.push(sc.fault_until_us + r.below(period), r.u32() | 1, Op::StepEvery { ep: 0, period_us: period, until_us: sc.horizon_us });
+    }
+    if sc.byte_cap > 0 {
+        let mut bytes: std::collections::BTreeMap<(usize, Option<usize>), u64> = Default::default();
+        plan.timeline.retain(|t| match &t.op {
+            Op::Send { ep, to, len, .. } => {
+                let b = bytes.entry((*ep, *to)).or_insert(0);
+                *b += *len as u64 + 14;
+                *b <= sc.byte_cap
+            }
+            _ => true,
+        });
     }
     plan.params.insert("short_ch".into(), short_ch as f64);
     plan.end_us = sc.horizon_us;
